@@ -80,6 +80,14 @@ def owner(sig):
     return "C01"
 
 
+def owned_by(sig, which):
+    """a hard crash inside an operation (abort, SIGSEGV) breaks both statements: std::basic_string does not crash there (C01) and a call
+    must return normally, throw or terminate per the error policy without touching memory outside the buffer (C02)"""
+    if sig.split("/")[-1] == "crash" and which in ("C01", "C02"):
+        return True
+    return owner(sig) == which
+
+
 def run(ctx, which):
     pl = plan(ctx.tier, which)
     bins = vlib.parallel([(lambda p=p: build(p[0], p[2], p[3])) for p in pl])
@@ -104,7 +112,7 @@ def run(ctx, which):
         ctx.cap(c)
     other = 0
     for v in sub.viols:
-        if owner(v["sig"]) == which:
+        if owned_by(v["sig"], which):
             v = dict(v)
             v["sig"] = which + v["sig"][3:]
             ctx.viols.append(v)
@@ -123,7 +131,7 @@ def replay(ctx, rec, which):
     sub = vlib.Ctx(ctx.pid, ctx.tier, ctx.level, 0)
     sub.run_harness(build(inst, san, opt), rec["args"], tag=inst)
     for v in sub.viols:
-        if owner(v["sig"]) == which:
+        if owned_by(v["sig"], which):
             v = dict(v)
             v["sig"] = which + v["sig"][3:]
             ctx.viols.append(v)
